@@ -21,10 +21,12 @@ pub struct GroupSpec {
 }
 
 pub fn generate_group(run_seed: u64, g: usize) -> GroupSpec {
-    let mut base = pipeline::generate(run_seed);
     let mut r = Rng::new(run_seed ^ 0x6409);
+    // a fifth of the groups drive the library API (generated drain / sync_and_flush points,
+    // which are part of the program, i.e. held fixed inside the group)
+    let mut base = if r.pct(20) { pipeline::generate_api(run_seed, 0) } else { pipeline::generate(run_seed) };
     // bias towards the interesting mode: one PanSN file, frequent sync rounds
-    if r.pct(60) {
+    if base.api.is_none() && r.pct(60) {
         base.gen.pansn = true;
         base.cfg.single_file = true;
         base.presentations.truncate(1);
@@ -110,7 +112,7 @@ fn judge_group(group: &GroupSpec, runs: Vec<(crate::gen::genome::Workload, pipel
             r.count("member_not_ok", 1);
         }
     }
-    r.count(if group.members[0].cfg.single_file { "mode.single_file" } else { "mode.multi_file" }, 1);
+    r.count(if group.members[0].api.is_some() { "driver.library_api" } else if group.members[0].cfg.single_file { "mode.single_file" } else { "mode.multi_file" }, 1);
     let oks: Vec<&String> = shas.iter().flatten().collect();
     let mut distinct = oks.clone();
     distinct.sort();
